@@ -409,6 +409,14 @@ func (h *faultHarness) judgeSlow(c *FaultCase, kind string, base, er *execResult
 	}
 	if er.err == nil && kind == "select" && base.tbl != nil && er.tbl != nil {
 		a, b := tableRowsText(base.tbl), tableRowsText(er.tbl)
+		if c.Stmt != nil && c.Stmt.Q != nil && c.Stmt.Q.Limit != "" {
+			// LIMIT without a total order may return any n of the qualifying rows (C12): which ones arrive first is
+			// exactly what a slow call changes. Only the number of rows is comparable.
+			if len(a) != len(b) {
+				return mk("row-count-differs", "with a slow (not failing) driver call the statement returns %d rows instead of %d", len(b), len(a))
+			}
+			return nil
+		}
 		if !equalStrings(a, b) {
 			extra, missing := multisetDiff(b, a)
 			return mk("rows-differ", "with a slow (not failing) driver call the rows differ: extra=%q missing=%q", extra, missing)
